@@ -6,6 +6,9 @@ maturity):
     ["S"] | ["v"] | ["t"] | ["c", float]
     ["powp", var, a]          var**a           (var is a positive leaf)
     ["expl", var, c]          exp(c*var)
+    (constants and exponents are dyadic rationals with small denominators: they are exact both as floats and
+    as sympy Rationals, and sympy's assumption queries never meet an exponent like p/2^52 - which made it build
+    a dense polynomial of astronomical degree and exhaust the memory while this check was developed)
     ["logp", var] | ["sqrtp", var]             (positive leaf only)
     [u, node]                 u in UNARY: sin cos tanh atan erf gauss sigmoid sqrt1p log1p2 sq
     [b, node, node]           b in BINARY: add sub mul div1p   (div1p(a,b) = a / (1 + b^2))
@@ -15,7 +18,7 @@ All operations are smooth on the whole generated domain (S, v, t > 0).
 * ``to_torch(tree, S, v, t)``   - the pricer itself, written with torch ops (this is the *user code*
   handed to pfhedge.autogreek; autograd differentiates it).
 * ``SymPricer(tree)``           - the same expression in sympy; ``deriv(var, order)`` is the symbolic
-  derivative, ``eval_mp`` evaluates it in mpmath at 40 digits on the exact float inputs.  This is the
+  derivative, ``eval_mp`` evaluates it in mpmath at 60 digits on the exact float inputs.  This is the
   oracle (independent of autograd).
 * ``running(tree, S, v, t, var)`` - forward-mode second-order dual numbers in Python floats whose
   every component carries a first-order *running error bound* (Wilkinson/Higham style: each
@@ -129,6 +132,28 @@ def _symbols():
     return {k: sp.Symbol(k, positive=True) for k in VARS}
 
 
+@lru_cache(maxsize=None)
+def _log1p2_class():
+    """log(1 + x^2) as an opaque sympy function: evaluated with mpmath.log1p (log(1 + x*x) at fixed precision returns 0
+    for tiny |x| although float64 log1p resolves it), differentiated as 2x / (1 + x^2)."""
+    sp = _sym()
+
+    class Log1p2(sp.Function):
+        nargs = 1
+
+        def fdiff(self, argindex=1):
+            x = self.args[0]
+            return 2 * x / (1 + x * x)
+
+    return Log1p2
+
+
+def _mp_modules():
+    import mpmath as mp
+
+    return [{"Log1p2": lambda x: mp.log1p(x * x)}, "mpmath"]
+
+
 def _unary_sym(op, x):
     sp = _sym()
     if op == "sin":
@@ -148,7 +173,7 @@ def _unary_sym(op, x):
     if op == "sqrt1p":
         return sp.sqrt(1 + x * x)
     if op == "log1p2":
-        return sp.log(1 + x * x)
+        return _log1p2_class()(x)
     if op == "sq":
         return x * x
     raise ValueError(op)
@@ -192,9 +217,9 @@ def to_sympy(tree):
 
 
 class SymPricer:
-    """sympy form of a tree; derivatives evaluated in mpmath (40 digits)."""
+    """sympy form of a tree; derivatives evaluated in mpmath (60 digits)."""
 
-    DPS = 40
+    DPS = 60
 
     def __init__(self, tree):
         self.tree = tree
@@ -214,7 +239,7 @@ class SymPricer:
         if key not in self._fn:
             sy = _symbols()
             d = self.deriv(var, order) if order else self.expr
-            self._fn[key] = sp.lambdify((sy["S"], sy["v"], sy["t"]), d, modules="mpmath")
+            self._fn[key] = sp.lambdify((sy["S"], sy["v"], sy["t"]), d, modules=_mp_modules())
         with mp.workdps(self.DPS):
             val = self._fn[key](mp.mpf(S), mp.mpf(v), mp.mpf(t))
             return mp.mpf(val)
@@ -253,10 +278,16 @@ def _re(o) -> RE:
     return o if isinstance(o, RE) else RE(float(o), 0.0)
 
 
-def _apply(f, fp, u: RE) -> RE:
-    """elementary function with derivative fp: propagated argument error + 4 eps |value|"""
+def _apply(f, fp, u: RE, floor: float = 0.0) -> RE:
+    """elementary function with derivative fp: propagated argument error + 4 eps max(|value|, floor)"""
     z = f(u.x)
-    return RE(z, abs(fp(u.x)) * u.e + 4 * EPS * abs(z))
+    return RE(z, abs(fp(u.x)) * u.e + 4 * EPS * max(abs(z), floor))
+
+
+# Autograd evaluates the derivatives of tanh and sigmoid from the *output* y (1 - y^2, y (1 - y)): in the
+# saturated range the factor 1 - y cancels, so these derivatives carry an absolute error of order eps
+# instead of a relative one.
+_ABS_FLOOR_DERIVS = {"tanh": 1.0, "sigmoid": 1.0}
 
 
 def _sech2(x):
@@ -327,11 +358,11 @@ class Dual2:
         self.f, self.d1, self.d2 = f, d1, d2
 
 
-def _dual_unary(fns, u: Dual2) -> Dual2:
+def _dual_unary(fns, u: Dual2, floor: float = 0.0) -> Dual2:
     f0, f1, f2, f3 = fns
     F0 = _apply(f0, f1, u.f)
-    F1 = _apply(f1, f2, u.f)
-    F2 = _apply(f2, f3, u.f)
+    F1 = _apply(f1, f2, u.f, floor)
+    F2 = _apply(f2, f3, u.f, floor)
     return Dual2(F0, F1 * u.d1, F2 * u.d1 * u.d1 + F1 * u.d2)
 
 
@@ -345,7 +376,11 @@ def running(tree, S: float, v: float, t: float, var: str) -> Dual2:
 
     def leaf(name):
         x = vals[name]
-        return Dual2(RE(x, 8 * EPS * abs(x)), RE(1.0 if name == var else 0.0), RE(0.0))
+        if name != var:
+            return Dual2(RE(x, 8 * EPS * abs(x)), RE(0.0), RE(0.0))
+        # the variable reaches the pricer through a round trip (spot -> log(spot/K) -> exp(.)*K, volatility ->
+        # volatility^2 -> sqrt): its first derivative is 1 and its second derivative 0 only up to rounding
+        return Dual2(RE(x, 8 * EPS * abs(x)), RE(1.0, 8 * EPS), RE(0.0, 8 * EPS / abs(x)))
 
     def ev(n) -> Dual2:
         op = n[0]
@@ -356,7 +391,7 @@ def running(tree, S: float, v: float, t: float, var: str) -> Dual2:
         if op in POSLEAF:
             return _dual_unary(_posleaf_fns(op, float(n[2]) if len(n) > 2 else None), leaf(n[1]))
         if op in UNARY:
-            return _dual_unary(_UN[op], ev(n[1]))
+            return _dual_unary(_UN[op], ev(n[1]), _ABS_FLOOR_DERIVS.get(op, 0.0))
         a, b = ev(n[1]), ev(n[2])
         if op == "add":
             return Dual2(a.f + b.f, a.d1 + b.d1, a.d2 + b.d2)
@@ -382,7 +417,7 @@ def selfcheck() -> float:
     for name, fns in _UN.items():
         expr = 1 / (1 + x * x) if name == "inv1p" else _unary_sym(name, x)
         for k in range(4):
-            fk = sp.lambdify(x, sp.diff(expr, x, k) if k else expr, modules="mpmath")
+            fk = sp.lambdify(x, sp.diff(expr, x, k) if k else expr, modules=_mp_modules())
             for p in pts:
                 want = float(fk(mp.mpf(p)))
                 got = fns[k](p)
@@ -393,7 +428,7 @@ def selfcheck() -> float:
                           ("sqrtp", None, sp.sqrt(xp))):
         fns = _posleaf_fns(op, par)
         for k in range(4):
-            fk = sp.lambdify(xp, sp.diff(expr, xp, k) if k else expr, modules="mpmath")
+            fk = sp.lambdify(xp, sp.diff(expr, xp, k) if k else expr, modules=_mp_modules())
             for p in (0.07, 0.9, 3.1, 20.0):
                 want = float(fk(mp.mpf(p)))
                 worst = max(worst, abs(fns[k](p) - want) / (1e-13 * (1 + abs(want))))
